@@ -69,7 +69,8 @@ def distribute(computation_graph: ComputationGraph,
                agentsdef: Iterable[AgentDef],
                hints: DistributionHints=None,
                computation_memory=None,
-               communication_load=None):
+               communication_load=None,
+               timeout=None):  # not used
     """
     Generate a distribution for the dcop.
 
